@@ -11,7 +11,7 @@ import (
 func GeneratePattern(pattern profile.PatternRule, iriExpander *misc.IriExpander) []SimpleRegoResult {
 	path := pattern.Path
 	var rego []string
-	rego = append(rego, "#  querying path: "+path.Source())
+	rego = append(rego, queryingPathComment(path.Source()))
 	pathResult := GeneratePropertySet(path, pattern.Variable.Name, iriExpander)
 	checkVariable := profile.Genvar(fmt.Sprintf("%s_node", pathResult.rule))
 	rego = append(rego, fmt.Sprintf("%s_array = %s with data.sourceNode as %s", checkVariable, pathResult.rule, pattern.Variable.Name))
